@@ -19,6 +19,8 @@ func plainEngines() map[string]simkit.Engine {
 	}
 	add("stream-xml", stream.XML)
 	add("events", events.Run)
+	add("stream-json", stream.JSON)
+	add("stream-html", stream.HTML)
 	return m
 }
 
@@ -76,6 +78,20 @@ func checkCmd(args []string) int {
 		c.Components = map[string][]string{"real": realLib, "simulated": {"io.Reader behind ReadXml (delivery schedule, truncation, read errors, corruption)"}}
 		c.RequiredProbes = []string{"truncation-inside-multibyte-sequence", "corruption-detected-by-decoder", "corruption-still-decodable", "read-error", "truncation-after-document-element", "delivery:one-byte", "delivery:cut-inside-tokens", "zero-length-reads"}
 		c.Phases = []simkit.Phase{{Label: "stream-xml", Bin: bin, Engine: "stream-xml", Runs: pick(8000, 400000), MaxSeconds: secs(60, 1500), DetSample: int(pick(24, 256)), Samples: 3}}
+	case "C16":
+		c.Level = "fault_enumeration"
+		c.Rule = "one evaluation = one generated sequence of JSON values, serialised with tape-drawn variation and pushed through ReadJson under: the reference delivery, 1-3 drawn delivery schedules, EVERY truncation offset, a read error at EVERY offset, and 8-23 sampled code-point corruptions (executions_of_code_under_test counts the ReadJson calls); distinct = distinct text; non-trivial = text has >= 5 bytes and at least one truncation produced malformed JSON"
+		c.Assumptions = []string{"malformedness of faulted texts is decided by an independent strict RFC 8259 reader (model.JSONRef) that must agree with the generator on every clean input", "texts with lone surrogate escapes, numbers outside the double range, adjacent top-level values without white space, or no value at all are not judged", "top-level values are separated by white space"}
+		c.Components = map[string][]string{"real": realLib, "simulated": {"io.Reader behind ReadJson (delivery schedule, truncation, read errors, corruption)"}}
+		c.RequiredProbes = []string{"truncation-inside-multibyte-sequence", "corruption-malformed", "corruption-still-valid", "read-error", "truncation-still-valid", "truncation-malformed", "delivery:one-byte", "zero-length-reads"}
+		c.Phases = []simkit.Phase{{Label: "stream-json", Bin: bin, Engine: "stream-json", Runs: pick(10000, 600000), MaxSeconds: secs(60, 1500), DetSample: int(pick(24, 256)), Samples: 3}}
+	case "C17":
+		c.Level = "exploration"
+		c.Rule = "one evaluation = one generated HTML page (doctype variants, structural/table/void/raw-text/foreign vocabulary, xmlns/xlink/prefixed attributes, generation-time tag soup) pushed through ReadHtml under drawn delivery schedules, sampled truncations, sampled read errors and 8-19 content corruptions; every input that starts with a doctype is compared with an independent html.Parse + plain DOM walk (executions_of_code_under_test counts the ReadHtml calls); distinct = distinct page text; non-trivial = at least 3 of the inputs derived from the page were judged"
+		c.Assumptions = []string{"the reference is golang.org/x/net/html itself, as the property states; the harness walks its DOM with a plain recursion", "names carry at most one colon", "inputs without a leading doctype are only monitored for crashes"}
+		c.Components = map[string][]string{"real": realLib, "simulated": {"io.Reader behind ReadHtml (delivery schedule, truncation, read errors, content corruption as the tag-soup source)"}}
+		c.RequiredProbes = []string{"judged-inputs", "not-judged-no-leading-doctype", "read-error", "truncation", "delivery:one-byte"}
+		c.Phases = []simkit.Phase{{Label: "stream-html", Bin: bin, Engine: "stream-html", Runs: pick(6000, 400000), MaxSeconds: secs(60, 1500), DetSample: int(pick(24, 256)), Samples: 3}}
 	case "C10":
 		c.Level = "exploration"
 		c.Rule = "one evaluation = one scripted event history (contract-conforming: element start, then namespaces, then attributes, then children, end; surplus end events only where depth is 0) pulled by store.CreateInMemory through the Parser seam and compared with a stack-machine reference model, plus the stack-ceiling child processes (one evaluation each); distinct = distinct event history; non-trivial = history has >= 4 events"
